@@ -169,6 +169,22 @@ def analyze(ctx, want):
     seen = set()
     for p in paths:
         fc = p.calls(r"fs::File::create::")
+        oo = p.calls(r"fs::OpenOptions::open::")
+        if oo and not fc:
+            # File::create == OpenOptions::new().write(true).create(true).truncate(true).open(..)
+            chain = S.fstr(oo[0][7][0] if len(oo[0]) > 7 else oo[0][3][0])
+            flags = {}
+            for e in p.events:
+                if e[0] == "call":
+                    m = re.search(r"fs::OpenOptions::(write|create|truncate|append|create_new|read)$", e[2])
+                    if m:
+                        flags[m.group(1)] = S.fstr(argval(e, 1))
+            ok = flags.get("write") == "True" and flags.get("create") == "True" and flags.get("truncate") == "True" and "append" not in flags
+            ob("C18.a", "dot-file-is-created-truncating", ok,
+               "the file is opened with OpenOptions flags %s: an existing (longer) file must be truncated, otherwise a stale tail remains after the new graph" % flags, gd.loc(oo[0][1]))
+            fc = oo
+        elif fc:
+            ob("C18.a", "dot-file-is-created-truncating", True, "File::create (write + create + truncate)", gd.loc(fc[0][1]))
         if not fc:
             if p.end[0] == "return":
                 r = p.end[1]
